@@ -234,6 +234,15 @@ func NewSugarDB(options ...func(sugarDB *SugarDB)) (*SugarDB, error) {
 			DeleteKey: func(ctx context.Context, key string) error {
 				sugarDB.storeLock.Lock()
 				defer sugarDB.storeLock.Unlock()
+				// A deletion because of expiry only applies to the value that expired:
+				// a key that has been written again since keeps its new value.
+				if expiredAt, _ := ctx.Value("ExpiredAt").(int64); expiredAt != 0 {
+					database, _ := ctx.Value("Database").(int)
+					entry, ok := sugarDB.store[database][key]
+					if !ok || entry.ExpireAt.UnixNano() != expiredAt {
+						return nil
+					}
+				}
 				return sugarDB.deleteKey(ctx, key)
 			},
 			GetState: func() map[int]map[string]internal.KeyData {
